@@ -188,6 +188,7 @@ def run(cx):
     cx.guard(_r08f, cx, repo, cht)
     cx.guard(make_ownership, cx, repo, "R08g")
     cx.guard(_r08h, cx, repo, cht)
+    cx.guard(_r08i, cx, repo, cht, chunk)
 
 
 def make_ownership(cx, repo, rule):
@@ -521,3 +522,134 @@ def _r08h(cx, repo, cht):
     cx.counts["R08h:loops / invariant candidates / invariants kept"] = [it.stats["loops"], it.stats["candidates"], it.stats["invariants"]]
     cx.counts["R08h:loop invariants (equalities)"] = {str(k): v for k, v in it.invariants}
     cx.at_least("R08h", "path x case pairs compared", total, 30)
+
+
+# ---------------------------------------------------------------------- R08i: equality
+def _r08i(cx, repo, cht, chunk):
+    """Equality, given the canonical form decided by R08a-c (no empty chunk, neighbours differ in colour): two texts show
+    the same characters in the same colours iff their chunk lists are pairwise equal; a text shows only default-coloured
+    characters iff it is empty or a single plain chunk.  The __eq__ methods are interpreted over the finite partitions below
+    (values are touched only through len() == / != small constants, truthiness, ==, is_plain())."""
+    from sa.finite import Interp, C, K, TOP
+    cx.rule("R08i", "== : same characters in the same colours <=> equal; default-coloured text == plain str")
+    ceq = repo.method(chunk, "__eq__")
+    teq = repo.method(cht, "__eq__")
+    cx.need(ceq is not None and teq is not None, "R08i", cht, "__eq__ of CHText and of its chunk class")
+
+    class _I(Interp):
+        def __init__(self, facts):
+            super().__init__()
+            self.f = facts
+
+        def test(self, t, env):
+            key = norm(t)
+            if key in self.f:
+                return [(self.f[key], env)]
+            if isinstance(t, ast.Compare) and len(t.ops) == 1 and isinstance(t.ops[0], (ast.Eq, ast.NotEq, ast.Is, ast.IsNot, ast.Gt, ast.Lt, ast.GtE, ast.LtE)):
+                l, r = norm(t.left), norm(t.comparators[0])
+                for a, b in ((l, r), (r, l)):
+                    k2 = f"{a} == {b}"
+                    if k2 in self.f and isinstance(t.ops[0], (ast.Eq, ast.NotEq)):
+                        v = self.f[k2]
+                        return [(v if isinstance(t.ops[0], ast.Eq) else not v, env)]
+                # len(x) against a constant
+                for side, other_, flip in ((t.left, t.comparators[0], False), (t.comparators[0], t.left, True)):
+                    if isinstance(side, ast.Call) and call_name(side) == "len" and f"#{norm(side.args[0])}" in self.f and isinstance(other_, ast.Constant) and isinstance(other_.value, int):
+                        n, c = self.f[f"#{norm(side.args[0])}"], other_.value      # n in 0, 1, 2 (2 = two or more)
+                        op = type(t.ops[0])
+                        if flip:
+                            op = {ast.Gt: ast.Lt, ast.Lt: ast.Gt, ast.GtE: ast.LtE, ast.LtE: ast.GtE}.get(op, op)
+                        if c > 2 or c < 0:
+                            raise AnalysisError("R08i", norm(t), "length compared with a constant outside 0..2")
+                        if n == 2 and c == 2 and op in (ast.Eq, ast.NotEq, ast.Gt, ast.LtE):
+                            raise AnalysisError("R08i", norm(t), "cannot decide len >= 2 against 2")
+                        res = {ast.Eq: n == c, ast.NotEq: n != c, ast.Gt: n > c, ast.Lt: n < c, ast.GtE: n >= c, ast.LtE: n <= c}.get(op)
+                        if res is not None:
+                            return [(res, env)]
+                if isinstance(t.left, ast.Call) and call_name(t.left) == "len" and isinstance(t.comparators[0], ast.Call) and call_name(t.comparators[0]) == "len":
+                    k2 = "len equal"
+                    if k2 in self.f and isinstance(t.ops[0], (ast.Eq, ast.NotEq)):
+                        return [(self.f[k2] if isinstance(t.ops[0], ast.Eq) else not self.f[k2], env)]
+            if isinstance(t, ast.Call) and call_name(t) == "isinstance":
+                k2 = f"isinstance({norm(t.args[0])}, {norm(t.args[1])})"
+                if k2 in self.f:
+                    return [(self.f[k2], env)]
+            if isinstance(t, ast.Call) and call_name(t) == "all" and "all pairs equal" in self.f and len(t.args) == 1 and isinstance(t.args[0], ast.GeneratorExp):
+                g = t.args[0]
+                ok = len(g.generators) == 1 and not g.generators[0].ifs and norm(g.generators[0].iter) in ("zip(self.chunks, other.chunks)", "zip(other.chunks, self.chunks)") \
+                    and isinstance(g.elt, ast.Compare) and len(g.elt.ops) == 1 and isinstance(g.elt.ops[0], ast.Eq) \
+                    and {norm(g.elt.left), norm(g.elt.comparators[0])} == {norm(x) for x in g.generators[0].target.elts}
+                if not ok:
+                    raise AnalysisError("R08i", norm(t)[:60], "pairwise comparison not recognised")
+                return [(self.f["all pairs equal"], env)]
+            if isinstance(t, (ast.Name, ast.Attribute)) and f"?{key}" in self.f:
+                return [(self.f[f"?{key}"], env)]
+            if isinstance(t, ast.Call) and key in self.f:
+                return [(self.f[key], env)]
+            return super().test(t, env)
+
+        def ev(self, e, env):
+            if isinstance(e, (ast.Compare, ast.BoolOp, ast.Call)) or isinstance(e, ast.UnaryOp) and isinstance(e.op, ast.Not):
+                try:
+                    ts = {tv for tv, _ in self.test(e, env)}
+                    if len(ts) == 1:
+                        return C(ts.pop())
+                except AnalysisError:
+                    raise
+            return super().ev(e, env)
+
+    def result(func, facts, label):
+        it = _I(facts)
+        outs = it.run(func.body, {})
+        res = set()
+        for o in outs:
+            if o.how == "return" and isinstance(o.value, C) and isinstance(o.value.v, bool):
+                res.add(o.value.v)
+            elif o.how == "return" and norm(getattr(o.node, "value", None) or ast.Constant(value=None)) == "NotImplemented":
+                res.add("NotImplemented")
+            else:
+                raise AnalysisError("R08i", f"{REL}::{func.name}", f"{label}: result not decided ({o.how} {o.value!r})")
+        return res
+
+    n = 0
+    # ---- chunk == chunk
+    for pf in (True, False):
+        for tx in (True, False):
+            for sf in (True, False):
+                facts = {"self is other": False, "isinstance(other, type(self))": True, "self.c_prefix == other.c_prefix": pf, "self.text == other.text": tx, "self.c_suffix == other.c_suffix": sf}
+                want = pf and tx and sf
+                got = result(ceq, facts, "chunk == chunk")
+                n += 1
+                cx.ob("R08i", ceq, got == {want}, f"chunk == chunk (colour {'same' if pf and sf else 'differs'}, text {'same' if tx else 'differs'}): {want}" if got == {want} else
+                      f"chunks with prefix-equal={pf}, text-equal={tx}, suffix-equal={sf} compare {sorted(map(str, got))}, must be {want}", stmt=f"chunk eq {pf}/{tx}/{sf}")
+    # ---- text == text
+    for same_len in (True, False):
+        for pairs in (True, False):      # `pairs`: the chunks zip() pairs up are all equal (with different counts: a proper prefix)
+            facts = {"self is other": False, "isinstance(other, type(self))": True, "len equal": same_len, "all pairs equal": pairs}
+            want = same_len and pairs
+            got = result(teq, facts, "text == text")
+            n += 1
+            cx.ob("R08i", teq, got == {want}, f"text == text (chunk counts {'equal' if same_len else 'differ'}, chunks pairwise {'equal' if pairs else 'different'}): {want}" if got == {want} else
+                  f"texts with equal chunk counts={same_len}, pairwise equal chunks={pairs} compare {sorted(map(str, got))}, must be {want}", stmt=f"text eq {same_len}/{pairs}")
+    # ---- text == str
+    first = "self.chunks[0]"
+    pvars = [norm(st.targets[0]) for st in teq.body[-1:] if False]
+    for nch in (0, 1, 2):
+        for plain in ((True, False) if nch == 1 else (None,)):
+            for other_empty in (True, False):
+                for same_text in ((True, False) if nch == 1 else (None,)):
+                    if nch == 1 and same_text and other_empty:
+                        continue        # a chunk never has empty text
+                    facts = {"self is other": False, "isinstance(other, type(self))": False, "isinstance(other, str)": True, "#self.chunks": nch,
+                             "?self.chunks": nch > 0, "?other": not other_empty}
+                    for pv in ("p", first):
+                        if plain is not None:
+                            facts[f"{pv}.is_plain()"] = plain
+                        if same_text is not None:
+                            facts[f"{pv}.text == other"] = same_text
+                    want = (nch == 0 and other_empty) or (nch == 1 and bool(plain) and bool(same_text))
+                    got = result(teq, facts, "text == str")
+                    n += 1
+                    lab = f"{['no', 'one', 'several'][nch]} chunk(s)" + (f", {'plain' if plain else 'coloured'}, text {'==' if same_text else '!='} str" if nch == 1 else "") + f", str {'empty' if other_empty else 'not empty'}"
+                    cx.ob("R08i", teq, got == {want}, f"text == str ({lab}): {want}" if got == {want} else f"text == str ({lab}) gives {sorted(map(str, got))}, must be {want}", stmt=f"text eq str {lab}")
+    cx.at_least("R08i", "abstract cases", n, 20)
